@@ -1035,9 +1035,13 @@ package leveldb
 //@     assert [C01,C03,C06,C07:builder-fills-this-compactions-record] b.rec == rec && b.c == c
 //@   at before call (*DB).compactionCommit#2
 //@     assert [C01,C03,C06,C07:the-record-filled-is-the-record-committed] arg1 == rec
+// C07: an output table that could not be finished stays with the builder, so that the builder's cleanup drops it
+// (removes the partial file and gives its number back); a finished one is handed to the record and leaves the builder.
 //@ func (*tableCompactionBuilder).flush
-//@   props C06 C01 C03
+//@   props C06 C01 C03 C07
 //@   safety off
+//@   ensures [C07:an-unfinished-output-stays-with-the-builder-for-cleanup] result != nil ==> (b.tw == old(b.tw) && old(b.tw) != nil)
+//@   ensures [C07:a-finished-output-leaves-the-builder] result == nil ==> b.tw == nil
 //@   at before call (*sessionRecord).addTableFile#1
 //@     assert [C01,C03,C06:compaction-output-goes-one-level-below-its-source] arg0 == b.c.sourceLevel + 1 && arg1 == t
 
